@@ -90,6 +90,12 @@ class Ctx:
             self.say('translator:', out7.strip())
             if rc7 != 0:
                 self.problems.append(('translator', out7.strip()))
+        # shapes behind aligned / scoped_aligned (C18, C03)
+        rc8, out8, _ = sh([sys.executable, os.path.join(VERIF, 'tools', 'alignsites.py'), REPO, os.path.join(COQ, 'gen')])
+        if self.pid in ('C18', 'C03'):
+            self.say('translator:', out8.strip())
+            if rc8 != 0:
+                self.problems.append(('translator', out8.strip()))
         # shapes of bump_pool.rs the pool model relies on (C19)
         rc6, out6, _ = sh([sys.executable, os.path.join(VERIF, 'tools', 'poolsites.py'), REPO, os.path.join(COQ, 'gen')])
         if self.pid == 'C19':
